@@ -238,6 +238,8 @@ def rule_conc(filter_names=None):
             for (sp, sb, skey, wc) in ws:
                 for (ok_, sp_, msg_) in rows_complete(crate, wc):
                     o.check(ok_, prog.pretty[wc], "rows-complete", msg_, sp_)
+                for (ok_, sp_, msg_) in rows_merged(crate, wc):
+                    o.check(ok_, prog.pretty[wc], "rows-merged", msg_, sp_)
             # --- TILE
             tiles = tile_templates(crate, root)
             tt = trusted_tiles().get(who)
@@ -703,6 +705,76 @@ def rows_complete(crate, wc):
     return out
 
 
+def rows_merged(crate, wc):
+    """[(ok, span, message)]: store-centric complement of rows_complete.  Where a worker writes result row u through a raw
+    pointer (u its partition variable) and reads rows of operands through raw pointers indexed by a partition variable,
+    every write of row u is preceded, on every path from the definition of u, by a read of row u of each operand X or by
+    a test that establishes u >= len(rows of X); or u >= len(rows of X) is known at the write.  A chunk-wide shortcut that
+    copies one operand without that knowledge drops the other operand's rows for some tilings only."""
+    from .mem import root_bounds
+    from .facts import Rel
+    out = []
+    an = crate.an(wc)
+    fx = crate.fx(wc)
+    adds = [ev for ev in an.events if ev["k"] == "call" and ev["key"] == "rawptr::add" and len(ev["args"]) == 2
+            and _is_partition_var(an, fx, ev["args"][1])]
+    if not adds:
+        return out
+    writes = []
+    for ev in an.events:
+        tgt = None
+        if ev["k"] == "call" and ev["key"] == "core::ptr::write" and ev["args"]:
+            tgt = ev["args"][0]
+        elif ev["k"] == "store" and ev.get("addr") is not None and ev.get("via") is None:
+            tgt = ev["addr"]
+        if tgt is not None and tgt[0] == "call" and tgt[1] == "rawptr::add" and len(tgt[3]) == 2 and _is_partition_var(an, fx, tgt[3][1]):
+            writes.append((ev, tgt[3][0], tgt[3][1]))
+    if not writes:
+        return out
+    result_ptrs = {P for _, P, _ in writes}
+    operands = {}
+    for ev in adds:
+        P = ev["args"][0]
+        if P in result_ptrs or P in operands:
+            continue
+        Bs = [B for B in root_bounds(crate, an, P) if B[0] == "len"]
+        if Bs:
+            operands[P] = Bs
+    if not operands:
+        return out
+    for wev, Pr, u in writes:
+        site, _ = payload_of(u)
+        start = site[1]
+        sb = wev["b"]
+        for P, Bs in operands.items():
+            if any(fx.holds(sb, lambda rel, B=B: rel.le(B, u)) for B in Bs):
+                out.append((True, wev["span"], ""))
+                continue
+            reads = {ev["b"] for ev in adds if ev["args"][0] == P and ev["args"][1] == u}
+            seen, work, bad = set(), [tg for tg, _ in an.cfg.succ[start]], False
+            # edges out of `start` carry no operand test
+            while work:
+                x = work.pop()
+                if x in seen or x == start:
+                    continue
+                seen.add(x)
+                if x in reads:
+                    continue
+                if x == sb:
+                    bad = True
+                    break
+                for tg, lab in an.cfg.succ[x]:
+                    atoms = frozenset(fx.close(fx.edge_atoms(x, lab, tg)))
+                    rel = Rel(atoms, an)
+                    if any(rel.le(B, u) for B in Bs):
+                        continue
+                    work.append(tg)
+            out.append((not bad, wev["span"], "result row u is written on a path that neither reads row u of an operand nor knows that the "
+                        "operand has no row u (u >= its length): that operand's arcs are dropped for the rows of this path, and "
+                        "which rows take it depends on the chunk boundaries"))
+    return out
+
+
 COMMUTATIVE_UNDER_LOCK = {"alloc::collections::btree::set::BTreeSet::insert"}
 LOCK_PLUMBING = {"core::ops::deref::DerefMut::deref_mut", "core::ops::deref::Deref::deref", "core::result::Result::unwrap_unchecked",
                  "core::result::Result::unwrap", "core::result::Result::expect", "std::sync::poison::mutex::Mutex::lock",
@@ -849,7 +921,8 @@ def failure_published(crate, wp):
 CONTAINER_NAMES = ("Vec", "BTreeSet", "BTreeMap", "VecDeque", "BinaryHeap", "HashSet", "HashMap", "String")
 RESET_CALLS = ("::clear",)
 FILL_CALLS = ("::push", "::push_back", "::insert", "::extend", "::extend_from_slice", "::append", "::resize", "::truncate", "::retain",
-              "::sort", "::sort_unstable", "::dedup", "::reserve")
+              "::sort", "::sort_unstable", "::dedup", "::reserve", "::remove", "::pop", "::pop_first", "::pop_last", "::pop_front",
+              "::pop_back", "::swap_remove", "::drain", "::take", "::split_off", "::push_front")
 
 
 def row_local_scratch(crate, wp):
@@ -906,11 +979,36 @@ def row_local_scratch(crate, wp):
                     reads.append(ev)
             if not fills or not reads:
                 continue
+            if _balanced_edits(an, fills):
+                continue
             for r in reads:
                 ok = any(an.cfg.dominates(s_["b"], r["b"]) for s_ in resets)
                 out.append((ok, r["span"], "a scratch container created before the row loop is read here without having been emptied on "
                             "every path of this iteration: it can still hold the previous row's contents"))
     return out
+
+
+def _balanced_edits(an, fills):
+    """the only edits are `c.remove(&k)` .. `c.insert(k)` pairs on the same key, the insert on every path after the remove:
+    the container leaves the iteration as it entered it"""
+    def keyval(t):
+        if t[0] in ("addr", "at") and t[2] is None:
+            vals = {v for (var, ver), v in an.term_of.items() if var == t[1] and v[0] != "opq"}
+            if len(vals) == 1:
+                return next(iter(vals))
+        return t
+    rem = [e for e in fills if e["key"].endswith("::remove")]
+    ins = [e for e in fills if e["key"].endswith("::insert")]
+    if not rem or len(rem) + len(ins) != len(fills) or len(rem) != len(ins):
+        return False
+    for r in rem:
+        if len(r["args"]) != 2:
+            return False
+        k = keyval(r["args"][1])
+        if not any(len(i["args"]) == 2 and keyval(i["args"][1]) == k and an.cfg.dominates(r["b"], i["b"])
+                   and an.cfg.postdominates(i["b"], r["b"]) for i in ins):
+            return False
+    return True
 
 
 def _dest_region(an, ev):
